@@ -67,6 +67,12 @@ CHAIN_HEADS = ["xa", "xb", "xc"]
 CHAIN_KS = [-0o100, -7, -3, -2, -1, 1, 2, 3, 5, 0o12, 0o100]
 
 
+def span_of(lay):
+    """bytes emitted by the statement under test"""
+    form, reps = lay.get("form", "dword"), lay.get("reps", 1)
+    return {"dword": 4, "word": 2, "imm": 4, "index": 4}[form] * reps
+
+
 def make_chains(rng, base, pad, order=None, place=None, length=None):
     """Symbols holding ADDRESSES through chains of intermediate symbols:
          xa = xa1 + k0 ; xa1 = xa2 - k1 ; xa2 = <label or '.'> + k2
@@ -121,8 +127,9 @@ def layout_syms(lay):
     base, pad = lay["base"], lay["pad"]
     dot = base + pad + 2
     syms = dict(lay["consts"])
-    syms.update({"lb0": base, "lb1": dot, "la0": dot + 4, "la1": dot + 6, "cd0": 4 + pad + 2})
-    syms.update(lay.get("chains", {}).get("values", {}))
+    sp = span_of(lay)
+    syms.update({"lb0": base, "lb1": dot, "la0": dot + sp, "la1": dot + sp + 2, "cd0": sp + pad + 2})
+    syms.update(lay.get("chains", {}).get("values", {}))     # chains are only made for the plain 4-byte statement
     return syms, dot
 
 
@@ -142,7 +149,14 @@ def program(lay, text):
     if lay["pad"]:
         lines.append(f"\t.blkb {oct(lay['pad'])[2:]}")
     lines.append("\t.word 0")
-    lines.append("lb1:\t.dword " + text)
+    form, reps = lay.get("form", "dword"), lay.get("reps", 1)
+    stmt = {"dword": ".dword " + text, "word": ".word " + text, "imm": "mov # " + text + " , r3",
+            "index": "mov " + text + " (r2), r1"}[form]
+    if reps == 1 and not lay.get("repeat"):
+        lines.append("lb1:\t" + stmt)
+    else:
+        # the same expression token is evaluated once per copy, with another '.' each time
+        lines.append("lb1:\t.repeat " + oct(reps)[2:] + " { " + stmt + " }")
     lines.append("la0:\t.word 0")
     lines.append("la1:\t.word 0")
     lines += lay.get("chains", {}).get("after", [])
@@ -156,16 +170,35 @@ NAMES = ["cb0", "cb1", "ca0", "ca1", "lb0", "lb1", "la0", "la1", "cd0", "xa", "x
 
 
 def observe(lay, out):
+    """-> one observation per evaluation of the expression (copies of a .repeat body), in order"""
+    form, reps = lay.get("form", "dword"), lay.get("reps", 1)
     if out["outcome"] == "ok":
         code = bytes.fromhex(out["code"])
         off = lay["pad"] + 2
-        if out["base"] != lay["base"] or len(code) != off + 8:
-            return ("other", "layout", out["base"], len(code))
-        b = code[off:off + 4]
-        return ("value", ((b[0] | b[1] << 8) << 16) | (b[2] | b[3] << 8))
+        if out["base"] != lay["base"] or len(code) != off + span_of(lay) + 4:
+            return [("other", "layout", out["base"], len(code))] * reps
+        obs = []
+        for i in range(reps):
+            if form == "dword":
+                b = code[off + 4 * i:off + 4 * i + 4]
+                obs.append(("value", ((b[0] | b[1] << 8) << 16) | (b[2] | b[3] << 8)))
+            elif form == "word":
+                b = code[off + 2 * i:off + 2 * i + 2]
+                obs.append(("value", b[0] | b[1] << 8))
+            else:   # the extension word of the instruction
+                b = code[off + 4 * i + 2:off + 4 * i + 4]
+                obs.append(("value", b[0] | b[1] << 8))
+        return obs
     if out["outcome"] == "failed":
-        return ("failed", sorted({d[1] for d in out["diags"] if d[0] != "warning"}))
-    return ("other", out["outcome"], out.get("crash"))
+        return [("failed", sorted({d[1] for d in out["diags"] if d[0] != "warning"}))] * reps
+    return [("other", out["outcome"], out.get("crash"))] * reps
+
+
+def dots_of(lay):
+    """value of '.' in each evaluation"""
+    _, dot = layout_syms(lay)
+    step = {"dword": 4, "word": 2, "imm": 4, "index": 4}[lay.get("form", "dword")]
+    return [dot + step * i for i in range(lay.get("reps", 1))]
 
 
 # ---------------------------------------------------------------------------------------------
@@ -275,6 +308,86 @@ def chain_trees():
 CHAIN_LAYOUT_SHAPES = [(o, p, n) for o in ("asc", "desc", "shuffled") for p in ("before", "after", "split") for n in (1, 2, 3)]
 
 
+def word_wrap(e):
+    return ("bin", "BAnd", ("grp", "paren", e), X.num(0o177777))
+
+
+def repeat_templates():
+    """expressions whose operands change from one evaluation of the token to the next ('.' in a .repeat body)"""
+    B = lambda o, l, r: ("bin", o, l, r)
+    D = ("dot",)
+    R = ("grp", "paren", B("BSub", D, ("sym", "lb0")))       # small, grows with every copy
+    out = []
+    for o in X.BINOPS:
+        sh = o in ("BShl", "BShr", "BLsh")
+        out += [B(o, D, X.num(2)), B(o, D, X.num(3)), B(o, R, X.num(1)), B(o, X.num(0o1234567), R), B(o, D, R),
+                B("BAdd", B(o, R, X.num(2)), X.num(0o100)), B("BMul", ("grp", "angle", B(o, D, X.num(3))), X.num(3)),
+                ("un", "UNeg", ("grp", "paren", B(o, D, X.num(2)))), B(o, B(o, D, X.num(2)), X.num(3)),
+                B(o, ("sym", "ca0"), ("grp", ("caret", "?"), B("BSub", D, ("sym", "lb1")))),
+                B("BSub", B(o, D, X.num(2)), B(o, R, X.num(2)))]
+        if not sh:
+            out.append(B(o, X.num(-0o7654321), D))
+    for o1 in ("BDiv", "BMod", "BShl", "BShr"):
+        for o2 in ("BDiv", "BMod", "BShl", "BShr"):
+            out.append(B(o1, ("grp", "paren", B(o2, D, X.num(2))), X.num(3)))
+            out.append(B("BAdd", B(o1, D, X.num(2)), B(o2, R, X.num(1))))
+    return out
+
+
+def plant_dot(rng, e):
+    """replace one leaf by something that depends on '.'"""
+    k = e[0]
+    if k in ("lit", "sym", "dot"):
+        return rng.choice([("dot",), ("grp", "paren", ("bin", "BSub", ("dot",), ("sym", "lb0"))),
+                           ("grp", "angle", ("bin", "BSub", ("sym", "la0"), ("dot",)))])
+    if k == "bin":
+        if rng.random() < 0.5:
+            return ("bin", e[1], plant_dot(rng, e[2]), e[3])
+        return ("bin", e[1], e[2], plant_dot(rng, e[3]))
+    return (k, e[1], plant_dot(rng, e[2]))
+
+
+FORMS = ["dword", "word", "imm", "index", "dword", "word"]
+
+
+def repeat_cases(rng, enc, n_random):
+    """one program per expression: '.repeat n { <statement using the expression> }'; every copy is one evaluation of
+    the same token with another '.', judged separately against the Spec"""
+    consts = {"cb0": 0o21, "cb1": -5, "ca0": 0o377, "ca1": 1 << 31}
+    trees = [(t, 0) for t in repeat_templates()]
+    for _ in range(n_random):
+        depth = rng.choice([1, 2, 3, 4])
+        trees.append((plant_dot(rng, X.gen_tree(rng, depth, ["cb0", "cb1", "ca0", "lb0", "lb1", "la0", "la1"], (), errors=False)), 1))
+    out = []
+    for i, (t, rnd) in enumerate(trees):
+        base, link, pad = LAYOUTS[(i * 7 + 3) % len(LAYOUTS)]
+        form = FORMS[i % len(FORMS)] if not rnd else rng.choice(FORMS)
+        lay = {"base": base, "link": link, "pad": pad, "consts": consts, "form": form, "reps": 2 + i % 3, "repeat": True}
+        syms, _ = layout_syms(lay)
+        vals, ok = [], True
+        for d in dots_of(lay):
+            if not X.small_enough(t, syms, d, enc):
+                ok = False
+                break
+            try:
+                vals.append(X.ev(t, syms, d, enc))
+            except X.EvalError:
+                vals.append(None)
+        if not ok or (any(v is None for v in vals) and not all(v is None for v in vals)):
+            continue     # a report in one copy fails the whole assembly: only all-or-none is attributable per evaluation
+        if len(set(vals)) == 1 and rnd:
+            continue     # not sensitive to '.'
+        ft = t
+        if form != "dword":
+            ft = word_wrap(t)
+            if form == "index":
+                ft = ("grp", "angle", ft)
+        elif any(v is not None and not (-X.TWO32 < v < X.TWO32) for v in vals):
+            ft = X.observe_wrap(t, 0)
+        out.append(("repeat", ft, lay, X.depth_of(t)))
+    return out
+
+
 def finalize(rng, tree, lay, enc):
     """choose how the value is observed so that the stored dword is defined; None if the tree is unusable (too big)"""
     syms, dot = layout_syms(lay)
@@ -326,6 +439,7 @@ def build_cases(rng, tier, enc, n_random):
         if ft is None:
             continue
         out.append((kind, ft, lay, X.depth_of(t)))
+    out += repeat_cases(rng, enc, 60 if tier == "quick" else 1500)
     return out
 
 
@@ -345,16 +459,21 @@ def run_cases(rng, cases):
     for i, o in enumerate(outs):
         if o["outcome"] in ("hang", "harness-error"):
             outs[i] = impl.assemble(*jobs[i][0], watchdog=120)
+    out_recs = []
     for r, o in zip(recs, outs):
-        r["obs"] = observe(r["lay"], o)
-        r["raw"] = {"outcome": o["outcome"], "code": o.get("code"), "errors": sorted({d[1] for d in o["diags"] if d[0] != "warning"}), "crash": o.get("crash")}
-    return recs
+        raw = {"outcome": o["outcome"], "code": o.get("code"), "errors": sorted({d[1] for d in o["diags"] if d[0] != "warning"}), "crash": o.get("crash")}
+        for i, (ob, d) in enumerate(zip(observe(r["lay"], o), dots_of(r["lay"]))):
+            q = dict(r)
+            q.update({"obs": ob, "raw": raw, "dot": d, "iteration": i})
+            out_recs.append(q)
+    return out_recs
 
 
 def judge(recs, module, judge_fn):
     terms = []
     for r in recs:
         syms, dot = layout_syms(r["lay"])
+        dot = r.get("dot", dot)
         if r["tree"] is None:
             terms.append(X.coq_tcase(r["tokens"], syms, dot, r["obs"]))
         else:
@@ -375,13 +494,15 @@ def nontrivial_key(r):
 
 def report_violation(rep, r, enc, how):
     syms, dot = layout_syms(r["lay"])
+    dot = r.get("dot", dot)
     exp = X.expected(r["tree"], syms, dot, enc)
-    rep.violate("expr:" + r["text"][:120],
+    rep.violate("expr:" + r["text"][:120] + (" @%d" % r["iteration"] if r.get("iteration") else ""),
                 "'.dword <expr>' stored a value / reported an outcome that contradicts the documented arithmetic (" + how + ")",
-                {"expression": r["text"], "files": [["t.mac", r["src"]]], "symbols": syms, "dot": dot},
+                {"expression": r["text"], "files": [["t.mac", r["src"]]], "symbols": syms, "dot": dot,
+                 "evaluation": r.get("iteration", 0)},
                 impl=r["raw"], expected_by_python_mirror_of_spec={"kind": exp[0], "value": exp[1] if len(exp) > 1 else None},
                 oracle="Spec.Arith.eval evaluated in coqc (Run.C05Spec.prop)",
-                replay={"tree": r["tree"], "layout": r["lay"]})
+                replay={"tree": r["tree"], "layout": r["lay"], "iteration": r.get("iteration", 0)})
 
 
 OUTSIDE = [
@@ -517,7 +638,7 @@ def replay(data):
     tree = fix(tree)
     lay = rp["layout"]
     recs = run_cases(random.Random(0), [("replay", tree, lay)])
-    print("expression:", recs[0]["text"], " observed now:", recs[0]["obs"])
+    print("expression:", recs[0]["text"], " observed now (per evaluation):", [r["obs"] for r in recs])
     C.build([], RUN_FILES[:1])
     codes = judge(recs, "Run.C05Spec", "judge_spec")
-    return not (codes[0] & 2)
+    return not any(c & 2 for c in codes)
